@@ -154,6 +154,7 @@ impl Context {
     pub fn replace_all(&self, s: &str) -> String {
         let mut res = String::from(s);
         let mut changed;
+        let mut rounds = 0;
         loop {
             changed = false;
             for (i, set) in self.regex_sets.iter().enumerate() {
@@ -168,6 +169,11 @@ impl Context {
                 }
             }
             if !changed {
+                break;
+            }
+            // A macro that (directly or not) expands to itself would never reach a fixed point
+            rounds += 1;
+            if rounds >= 64 {
                 break;
             }
         }
